@@ -123,7 +123,7 @@ def make_tu(u, tmp, shim, mutant=None):
                 ls.setdefault('props', ''.join('[%s]' % p for p in u['props']))
             loops[k] = ls
         d = {'loops': loops}
-        for k in ('entry', 'exit', 'nloops'):
+        for k in ('entry', 'exit', 'nloops', 'inserts'):
             if k in fs:
                 d[k] = fs[k]
         spec['functions'][f] = d
@@ -134,22 +134,31 @@ def make_tu(u, tmp, shim, mutant=None):
         f.write(tu)
     return path, report
 
-def parse_cbmc_json(out):
-    try:
-        data = json.loads(out)
-    except Exception:
-        return None, None
-    results = None
-    status = None
+RES_LINE = re.compile(r'^\[([^\]]+)\] (?:line (\d+) )?(.*): (SUCCESS|FAILURE|UNKNOWN|ERROR)$')
+HDR_LINE = re.compile(r'^(\S.*) function (\S+)$')
+
+def parse_cbmc_text(out):
+    """plain-text UI (the JSON UI was seen to drop results when a trace is attached)"""
+    results = []
+    cur_file = cur_fun = ''
+    done = False
     msgs = []
-    for item in data:
-        if 'result' in item:
-            results = item['result']
-        if 'cProverStatus' in item:
-            status = item['cProverStatus']
-        if 'messageText' in item:
-            msgs.append(item['messageText'])
-    return results, (status, msgs)
+    for ln in out.splitlines():
+        m = RES_LINE.match(ln)
+        if m:
+            results.append({'property': m.group(1), 'description': m.group(3), 'status': m.group(4),
+                            'sourceLocation': {'file': cur_file, 'line': m.group(2) or '', 'function': cur_fun}})
+            continue
+        h = HDR_LINE.match(ln)
+        if h:
+            cur_file, cur_fun = h.group(1), h.group(2)
+            continue
+        if ln.startswith('VERIFICATION '):
+            done = True
+        msgs.append(ln)
+    if not done:
+        return None, (None, msgs)
+    return results, ('done', msgs)
 
 TAG = re.compile(r'\[(C\d\d)\]')
 
@@ -193,7 +202,7 @@ def run_unit(u, keep=False, mutant=None, timeout=None, verbose=False, trace=Fals
         else:
             gb2 = gb
         tmo = timeout or u.get('timeout', 300)
-        cb = ['cbmc'] + CBMC_BASE + list(u.get('cbmc_flags', [])) + ['--json-ui']
+        cb = ['cbmc'] + [f for f in CBMC_BASE if f not in u.get('drop_checks', [])] + list(u.get('cbmc_flags', []))
         if trace:
             cb.append('--trace')
         if u.get('unwind'):
@@ -206,12 +215,12 @@ def run_unit(u, keep=False, mutant=None, timeout=None, verbose=False, trace=Fals
         if rc == 'timeout':
             res['reason'] = 'cbmc timeout after %ds' % tmo
             return res
-        results, st = parse_cbmc_json(out)
+        results, st = parse_cbmc_text(out)
         if results is None:
             res['reason'] = 'cbmc: no result (rc=%s) %s' % (rc, (err or out)[-1500:])
             return res
         if keep:
-            open(os.path.join(tmp, 'cbmc.json'), 'w').write(out)
+            open(os.path.join(tmp, 'cbmc.txt'), 'w').write(out)
         obs = []
         nfail = 0
         for r in results:
